@@ -49,7 +49,7 @@ class C08(Check):
                    'each mode is compared with branches run in the SAME mode, so early completion after take/first on plain observables is part of the reference',
                    'branch programs whose standalone run errors (mean(reduce) on an empty key ...) are discarded']
     ANCHORS = ['rxsci/operators/tee_map.py', 'rxsci/mux/muxconnectable.py']
-    REQUIRED_TAGS = ['plain', 'mux', 'group', 'roll', 'roll_eq', 'split', 'zip', 'merge', 'combine_latest', 'branches=2', 'branches=3', 'branches=4', 'nested-tee', 'over-256-keys', 'after-aborted-subscriptions', 'prelude:dispose', 'prelude:peek', 'a-branch-with-failing-records', 'rx-native-branch-with-inner-observables', 'branches>=9', 'a-key-slot-reused-by-hundreds-of-windows-while-a-value-waits-in-the-join', 'first-branch-ends-with-a-native-rx-operator']
+    REQUIRED_TAGS = ['two-level-context:key-indices-created-out-of-order-with-gaps', 'plain', 'mux', 'group', 'roll', 'roll_eq', 'split', 'zip', 'merge', 'combine_latest', 'branches=2', 'branches=3', 'branches=4', 'nested-tee', 'over-256-keys', 'after-aborted-subscriptions', 'prelude:dispose', 'prelude:peek', 'a-branch-with-failing-records', 'rx-native-branch-with-inner-observables', 'branches>=9', 'a-key-slot-reused-by-hundreds-of-windows-while-a-value-waits-in-the-join', 'first-branch-ends-with-a-native-rx-operator']
     REQUIRED_OBSERVED = ['tuples_compared', 'branch_traces_recorded', 'lifetimes_checked', 'cold_source_runs_compared']
 
     def generate(self, rng, tier, shard, nshards):
@@ -89,6 +89,22 @@ class C08(Check):
                         yield {'branches': branches, 'join': join, 'ctx': ['roll_eq', 'split'][(k // 1600) % 2],
                                'ctx_node': [['roll', wl, wl, None], ['split', 'div:%d' % wl, None]][(k // 1600) % 2],
                                'items': list(range(second + 2 * wl + 1)), 'slot_reuse_gap': d}
+                continue
+            if k % 50 == 41:
+                # a TWO-level context: group_by over roll with three or more windows open at a time over the tee.  The window keys of
+                # the second group are created while the first group has opened only one of its slots, so key indices reach the tee
+                # out of order and with gaps of two or more; branches of different rates keep values waiting in the join meanwhile
+                w, st = rng.choice([(3, 1), (4, 1), (5, 1), (5, 2), (6, 2), (7, 2)])
+                rate = rng.choice([[['filter', 'modne:2:0']], [['filter', 'modne:3:0']], [['filter', 'modne:2:1']]])
+                other = rng.choice([[['identity']], [['scan', 'acc_add', 'zero', False, None]], [['map', 'add:1']], [['count', False]]])
+                tail_ = rng.choice([[], [['scan', 'acc_add', 'zero', False, None]]])
+                branches = [rate + tail_, other] if rng.random() < 0.5 else [other, rate + tail_]
+                if rng.random() < 0.3:
+                    branches.append([['map', 'mul:2']])
+                ng = rng.choice([2, 2, 3])
+                yield {'branches': branches, 'join': ['zip', 'combine_latest', 'zip', 'merge'][(k // 50) % 4], 'ctx': 'roll',
+                       'ctx_node': ['roll', w, st, None], 'outer_node': ['group_by', 'mod:%d' % ng, None],
+                       'items': [rng.randint(0, 30) for _ in range(rng.choice([8, 14, 25]))]}
                 continue
             ctx = names[k % len(names)]
             plain = ctx == 'plain'
@@ -193,7 +209,13 @@ class C08(Check):
         node = list(case['ctx_node'])
         node[-1] = [tee] + after + [['scan', 'acc_keep', 'none', False, None]]
         head, tail = [], []
-        snap = progs.run_mux([node], items, taps={(0,): (head, tail)}, prelude=case.get('prelude'))
+        if case.get('outer_node'):
+            outer = list(case['outer_node'])
+            outer[-1] = [node]
+            out.tags.append('two-level-context:key-indices-created-out-of-order-with-gaps')
+            snap = progs.run_mux([outer], items, taps={(0, 0): (head, tail)}, prelude=case.get('prelude'))
+        else:
+            snap = progs.run_mux([node], items, taps={(0,): (head, tail)}, prelude=case.get('prelude'))
         hl, odd1 = lifetimes(head)
         tl, odd2 = lifetimes(tail)
         if len(hl) > 256:
